@@ -13,7 +13,8 @@ from vf import gen, hist, repo_root
 from vf.zygote import Client
 
 STEPS = ["call", "call", "call", "edit_efth", "edit_dir", "edit_freq", "edit_dir_via_coords", "edit_freq_via_coords", "edit_values_inplace", "partition_other", "partition_transposed",
-         "partition_same_size", "ptm12_same_size_other_grid", "ptm12_same_size_other_grid", "fit", "unknown_stat", "crsd_other", "reader", "attr_lookup", "call_on_copy", "dataset_accessor_touch", "reconstruct_other"]
+         "partition_same_size", "ptm12_same_size_other_grid", "ptm12_same_size_other_grid", "fit", "unknown_stat", "crsd_other", "reader", "attr_lookup", "call_on_copy", "dataset_accessor_touch", "reconstruct_other",
+         "partition_same_shape_other_levels", "partition_same_shape_other_levels", "write", "write"]
 
 
 PTM_WIND = (14.0, 200.0, 30.0)      # fixed wind speed / direction / depth shared by history and observed ptm1/ptm2
@@ -35,7 +36,7 @@ def mk_obs(rng, f, th):
         if name == "stats_limits" and rng.random() < 0.5:
             kw.update(dmin=45.0, dmax=300.0)
     elif name == "ptm3":
-        kw = {"parts": int(rng.integers(1, 4))}
+        kw = {"parts": int(rng.integers(1, 4)), "ihmax": int(rng.choice([4, 20, 100, 100, 300]))}
     elif name == "ptm4":
         kw = {"wspd": float(rng.uniform(3, 25)), "wdir": float(rng.uniform(0, 360)), "dpt": float(rng.uniform(5, 500))}
     return {"name": name, "kw": kw}
@@ -267,6 +268,23 @@ def do_step(step, rng, xr, wavespectra, attrs, obj, f, th, lnames, lsizes, sampl
         tt = np.arange(shape[1]) * (360.0 / shape[1])
         other = gen.make_da(gen.spectrum(rng, ff, tt, "multimodal")[0], ff, tt)
         other.spec.partition.ptm3(parts=2).values
+    elif step == "partition_same_shape_other_levels":
+        # state of the native routine keyed on the grid shape alone: same (nf, nd), another number of levels
+        nf, nd = obj.sizes["freq"], obj.sizes["dir"]
+        ff = np.linspace(0.05, 0.4, nf)
+        tt = np.arange(nd) * (360.0 / nd)
+        other = gen.make_da(gen.spectrum(rng, ff, tt, "multimodal")[0], ff, tt)
+        other.spec.partition.ptm3(parts=2, ihmax=int(rng.choice([3, 7, 40, 250, 1000]))).values
+    elif step == "write":
+        # an export of this very object (the Dataset accessor is cached per object)
+        import shutil
+        import tempfile
+        ds_ = obj if is_ds else obj.to_dataset(name="efth")
+        d_ = tempfile.mkdtemp(prefix="vf-c18-")
+        try:
+            getattr(ds_.spec, str(rng.choice(["to_swan", "to_octopus", "to_json"])))(os.path.join(d_, "hist_out"))
+        finally:
+            shutil.rmtree(d_, ignore_errors=True)
     elif step == "ptm12_same_size_other_grid":
         # caches keyed on too little: same number of frequencies / directions, same end points,
         # same depth and wind as the observed ptm1/ptm2 call - but another grid in between
